@@ -211,3 +211,56 @@ Definition op_model_ok (c : cfg) (o : aop) : Prop :=
   | AEnc m _ | ADec m => wf_model m /\ em_prec m <= WB c
   | AReload => True
   end.
+
+(* ---------- guards (stack.rs:1107-1160, CoderGuard<SEALED>) ---------- *)
+Fixpoint pop_n (n : nat) (l : list N) : list N :=
+  match n with O => l | S n' => match l with [] => [] | _ :: r => pop_n n' r end end.
+
+(* CoderGuard::<false>::new : append the state's chunks (least significant first) *)
+Definition ans_guard_open (c : cfg) (a : ans) : ans :=
+  {| bulk := rev (state_chunks c (st a)) ++ bulk a; st := st a |}.
+(* Drop: read one word per chunk *)
+Definition ans_guard_close (c : cfg) (a : ans) : ans :=
+  {| bulk := pop_n (length (state_chunks c (st a))) (bulk a); st := st a |}.
+(* what the guard dereferences to *)
+Definition ans_guard_view (a : ans) : list N := rev (bulk a).
+
+(* CoderGuard::<true>::new : most significant chunk must be 1 and is not written *)
+Definition ans_sealed_open (c : cfg) (a : ans) : option ans :=
+  match rev (state_chunks c (st a)) with
+  | top :: rest => if top =? 1 then Some {| bulk := rest ++ bulk a; st := st a |} else None
+  | [] => None
+  end.
+Definition ans_sealed_close (c : cfg) (a : ans) : ans :=
+  {| bulk := pop_n (length (state_chunks c (st a)) - 1) (bulk a); st := st a |}.
+
+(* ---------- seeking (stack.rs:1079-1095 over a Cursor / Vec backend) ----------
+   A seekable decoder over the words [buf] (Vec order) at position [pos] with state
+   [s] reads buf[pos-1], buf[pos-2], ... : it IS the coder {bulk := rev (firstn pos buf)}. *)
+Definition ans_pos (a : ans) : N * N := (N.of_nat (length (bulk a)), st a).
+
+Definition ans_seek (buf : list N) (p : N * N) : option ans :=
+  if fst p <=? N.of_nat (length buf)
+  then Some {| bulk := rev (firstn (N.to_nat (fst p)) buf); st := snd p |}
+  else None.
+
+(* ---------- bounded sink (C09): Cursor with [cap] slots; write fails when full ----------
+   stack.rs:987-992 : the word is written BEFORE the state is shifted. *)
+Inductive enc_result := EncOk (a : ans) | EncImpossible | EncBackendFull.
+
+Definition ans_encode_cap (c : cfg) (cap : N) (m : emodel) (s : Z) (a : ans) : enc_result :=
+  match em_enc m s with
+  | None => EncImpossible
+  | Some (cum, p) =>
+      if (p <=? shr (st a) (SB c - em_prec m)) && (cap <=? N.of_nat (length (bulk a)))
+      then EncBackendFull
+      else EncOk (ans_encode c (em_prec m) cum p a)
+  end.
+
+(* ---------- size (C12) ---------- *)
+(* value of a little-endian digit string in base 2^wb *)
+Fixpoint val_ls (wb : N) (ws : list N) : N :=
+  match ws with [] => 0 | w :: r => w + 2 ^ wb * val_ls wb r end.
+
+Definition ans_value (c : cfg) (a : ans) : N := val_ls (WB c) (ans_words c a).
+Definition ans_potential (c : cfg) (a : ans) : N := N.max (ans_value c a) (thr c).
